@@ -1,4 +1,4 @@
-import Poulpy.Lemmas.BytesReaders
+import Poulpy.Lemmas.BytesRT
 /-!
 # C18 — serialisation round-trips, and rejects damaged input without corruption
 
@@ -42,11 +42,6 @@ theorem vec_read_rejects_oversized_capacity :
       (leBytes 8 1 ++ leBytes 8 1 ++ leBytes 8 1 ++ leBytes 8 1000 ++ leBytes 8 8 ++ List.replicate 8 1) =
       .err "invalid" ⟨1, 1, 1, 1, List.replicate 8 0⟩ := by decide
 
-def VecWF (x : VecZnx) : Prop :=
-  x.n < 2 ^ 64 ∧ x.cols < 2 ^ 64 ∧ x.size < 2 ^ 64 ∧ x.maxSize < 2 ^ 64 ∧ x.n * x.cols < 2 ^ 64 ∧ x.data.length < 2 ^ 64
-
-
-
 /-- round trip: every well-formed object satisfying the invariant is written without error (in both
 build profiles) and read back — dimensions and the `n·cols·size·8` active bytes — by any receiver whose
 buffer holds `n·cols·max_size·8` bytes; the unread tail of the stream is left for the next reader. -/
@@ -54,37 +49,8 @@ theorem vec_read_write (x r : VecZnx) (p : Profile) (tail : Bytes) (hw : VecWF x
     (hcap : x.n * x.cols * x.maxSize * 8 ≤ r.data.length) :
     ∃ bs, x.writeTo p = .ok bs ∧
       VecZnx.readFrom r (bs ++ tail) =
-        .ok () ⟨x.n, x.cols, x.size, x.maxSize, x.data.take (x.n * x.cols * x.size * 8) ++ r.data.drop (x.n * x.cols * x.size * 8)⟩ tail := by
-  obtain ⟨hn, hc, hs, hm, hnc, hd⟩ := hw
-  obtain ⟨hsz, hbuf⟩ := hi
-  have h1 : x.n * x.cols * x.size * 8 ≤ x.n * x.cols * x.maxSize * 8 :=
-    Nat.mul_le_mul_right 8 (Nat.mul_le_mul_left _ hsz)
-  have h2 : x.n * x.cols * x.size * 8 < 2 ^ 64 := by omega
-  have h3 : x.n * x.cols * x.size < 2 ^ 64 := by omega
-  have h4 : x.n * x.cols * x.maxSize * 8 < 2 ^ 64 := by omega
-  refine ⟨leBytes 8 x.n ++ leBytes 8 x.cols ++ leBytes 8 x.size ++ leBytes 8 x.maxSize ++ leBytes 8 (x.n * x.cols * x.size * 8) ++
-      x.data.take (x.n * x.cols * x.size * 8), ?_, ?_⟩
-  · unfold VecZnx.writeTo
-    simp only [bind, Outcome.bind, mulU_of_lt p hnc, mulU_of_lt p h3, mulU_of_lt p h2]
-    have : ¬ x.data.length < x.n * x.cols * x.size * 8 := by omega
-    simp only [this, ↓reduceIte]
-  · unfold VecZnx.readFrom
-    simp only [List.append_assoc]
-    rw [readU64_le _ hn, readU64_le _ hc, readU64_le _ hs, readU64_le _ hm, readU64_le _ h2]
-    rw [cm3x8_of_lt h2 (Or.inr hnc)]
-    simp only [ne_eq, not_true_eq_false, ↓reduceIte, getS_bind]
-    have hb : ¬ r.data.length < x.n * x.cols * x.size * 8 := by omega
-    simp only [hb, ↓reduceIte, cm3x8_of_lt h4 (Or.inr hnc), Option.any_some, decide_eq_true_eq]
-    have hc2 : ¬ ((decide (x.size > x.maxSize) || !decide (x.n * x.cols * x.maxSize * 8 ≤ r.data.length)) = true) := by
-      simp; omega
-    rw [if_neg hc2, readExactInto_bind]
-    simp only [modifyS_apply]
-    have hl : (List.take (x.n * x.cols * x.size * 8) x.data).length = x.n * x.cols * x.size * 8 := by
-      simp; omega
-    have hg : ¬ (x.n * x.cols * x.size * 8 > r.data.length) := by omega
-    have hlt : ¬ ((List.take (x.n * x.cols * x.size * 8) x.data ++ tail).length < x.n * x.cols * x.size * 8) := by
-      simp; omega
-    simp only [hg, hlt, ↓reduceIte, List.take_left' hl, List.drop_left' hl]
+        .ok () ⟨x.n, x.cols, x.size, x.maxSize, x.data.take (x.n * x.cols * x.size * 8) ++ r.data.drop (x.n * x.cols * x.size * 8)⟩ tail :=
+  vec_rt x r p tail hw hi hcap
 example : VecWF ⟨2, 1, 1, 2, List.replicate 32 3⟩ ∧ VecZnx.Inv ⟨2, 1, 1, 2, List.replicate 32 3⟩ := by
   unfold VecWF VecZnx.Inv; decide
 
@@ -144,47 +110,15 @@ example : MatZnx.readFrom ⟨0, 0, 0, 0, 0, List.replicate 8 9⟩
     (leBytes 8 1 ++ leBytes 8 1 ++ leBytes 8 1 ++ leBytes 8 1 ++ leBytes 8 1 ++ leBytes 8 8 ++ List.replicate 8 5) =
     .ok () ⟨1, 1, 1, 1, 1, List.replicate 8 5⟩ [] := by decide
 
-def ScalarWF (x : ScalarZnx) : Prop := x.n < 2 ^ 64 ∧ x.cols < 2 ^ 64 ∧ x.data.length < 2 ^ 64
-
 /-- round trip for `ScalarZnx`: `read (write x) = ok x` (dimensions, the `n·cols·8` active bytes; receiver bytes beyond
 stay, stream tail unread) for any receiver whose buffer holds `n·cols·8` bytes, in both build profiles -/
 theorem scalar_read_write (x r : ScalarZnx) (p : Profile) (tail : Bytes) (hw : ScalarWF x) (hi : x.Inv)
     (hcap : x.n * x.cols * 8 ≤ r.data.length) :
     ∃ bs, x.writeTo p = .ok bs ∧
-      ScalarZnx.readFrom r (bs ++ tail) = .ok () ⟨x.n, x.cols, x.data.take (x.n * x.cols * 8) ++ r.data.drop (x.n * x.cols * 8)⟩ tail := by
-  obtain ⟨hn, hc, hd⟩ := hw
-  unfold ScalarZnx.Inv at hi
-  have h2 : x.n * x.cols * 8 < 2 ^ 64 := by omega
-  have h1 : x.n * x.cols < 2 ^ 64 := by omega
-  refine ⟨leBytes 8 x.n ++ leBytes 8 x.cols ++ leBytes 8 (x.n * x.cols * 8) ++ x.data.take (x.n * x.cols * 8), ?_, ?_⟩
-  · unfold ScalarZnx.writeTo
-    simp only [bind, Outcome.bind, mulU_of_lt p h1, mulU_of_lt p h2]
-    have : ¬ x.data.length < x.n * x.cols * 8 := by omega
-    simp only [this, ↓reduceIte]
-  · unfold ScalarZnx.readFrom
-    simp only [List.append_assoc]
-    rw [readU64_le _ hn, readU64_le _ hc, readU64_le _ h2]
-    simp only [checkedMul_of_lt h1, checkedMul_of_lt h2, Option.bind_some, ne_eq, not_true_eq_false, ↓reduceIte, getS_bind]
-    have hb : ¬ r.data.length < x.n * x.cols * 8 := by omega
-    rw [if_neg hb, readExactInto_bind]
-    simp only [modifyS_apply]
-    have hl : (List.take (x.n * x.cols * 8) x.data).length = x.n * x.cols * 8 := by simp; omega
-    have hg : ¬ (x.n * x.cols * 8 > r.data.length) := by omega
-    have hlt : ¬ ((List.take (x.n * x.cols * 8) x.data ++ tail).length < x.n * x.cols * 8) := by simp; omega
-    simp only [hg, hlt, ↓reduceIte, List.take_left' hl, List.drop_left' hl]
+      ScalarZnx.readFrom r (bs ++ tail) = .ok () ⟨x.n, x.cols, x.data.take (x.n * x.cols * 8) ++ r.data.drop (x.n * x.cols * 8)⟩ tail :=
+  scalar_rt x r p tail hw hi hcap
 example : ScalarWF ⟨4, 2, List.replicate 64 3⟩ ∧ ScalarZnx.Inv ⟨4, 2, List.replicate 64 3⟩ := by
   unfold ScalarWF ScalarZnx.Inv; decide
-
-/-- no partial product of the writer's / reader's length computation leaves `usize` (automatic when all
-dimensions are non-zero, since then every partial product is below the buffer length) -/
-def MatWF (m : MatZnx) : Prop :=
-  m.n < 2 ^ 64 ∧ m.size < 2 ^ 64 ∧ m.rows < 2 ^ 64 ∧ m.colsIn < 2 ^ 64 ∧ m.colsOut < 2 ^ 64 ∧ m.data.length < 2 ^ 64 ∧
-  m.n * m.colsOut < 2 ^ 64 ∧ m.n * m.colsOut * m.size < 2 ^ 64 ∧ m.n * m.colsOut * m.size * 8 < 2 ^ 64 ∧
-  m.rows * m.colsIn < 2 ^ 64 ∧ m.rows * m.colsIn * m.n < 2 ^ 64 ∧ m.rows * m.colsIn * m.n * m.colsOut < 2 ^ 64 ∧
-  m.rows * m.colsIn * m.n * m.colsOut * m.size < 2 ^ 64
-
-theorem mat_len_assoc (rows ci n co size : Nat) : rows * ci * (n * co * size * 8) = rows * ci * n * co * size * 8 := by
-  simp only [Nat.mul_assoc]
 
 /-- round trip for `MatZnx` -/
 theorem mat_read_write (x r : MatZnx) (p : Profile) (tail : Bytes) (hw : MatWF x) (hi : x.Inv)
@@ -192,34 +126,8 @@ theorem mat_read_write (x r : MatZnx) (p : Profile) (tail : Bytes) (hw : MatWF x
     ∃ bs, x.writeTo p = .ok bs ∧
       MatZnx.readFrom r (bs ++ tail) =
         .ok () ⟨x.n, x.size, x.rows, x.colsIn, x.colsOut,
-          x.data.take (x.rows * x.colsIn * x.n * x.colsOut * x.size * 8) ++ r.data.drop (x.rows * x.colsIn * x.n * x.colsOut * x.size * 8)⟩ tail := by
-  obtain ⟨hn, hs, hr, hci, hco, hd, p1, p2, p3, q1, q2, q3, q4⟩ := hw
-  unfold MatZnx.Inv at hi
-  have hL : x.rows * x.colsIn * x.n * x.colsOut * x.size * 8 < 2 ^ 64 := by omega
-  have hw5 : x.rows * x.colsIn * (x.n * x.colsOut * x.size * 8) < 2 ^ 64 := by rw [mat_len_assoc]; exact hL
-  refine ⟨leBytes 8 x.n ++ leBytes 8 x.size ++ leBytes 8 x.rows ++ leBytes 8 x.colsIn ++ leBytes 8 x.colsOut ++
-      leBytes 8 (x.rows * x.colsIn * x.n * x.colsOut * x.size * 8) ++ x.data.take (x.rows * x.colsIn * x.n * x.colsOut * x.size * 8), ?_, ?_⟩
-  · unfold MatZnx.writeTo MatZnx.bytesOf
-    simp only [bind, Outcome.bind, mulU_of_lt p p1, mulU_of_lt p p2, mulU_of_lt p p3, mulU_of_lt p q1, mulU_of_lt p hw5, mat_len_assoc]
-    have : ¬ x.data.length < x.rows * x.colsIn * x.n * x.colsOut * x.size * 8 := by omega
-    simp only [this, ↓reduceIte]
-  · unfold MatZnx.readFrom
-    simp only [List.append_assoc]
-    rw [readU64_le _ hn, readU64_le _ hs, readU64_le _ hr, readU64_le _ hci, readU64_le _ hco, readU64_le _ hL]
-    have hcm : cmMat x.rows x.colsIn x.n x.colsOut x.size = some (x.rows * x.colsIn * x.n * x.colsOut * x.size * 8) := by
-      unfold cmMat
-      simp only [checkedMul_of_lt q1, checkedMul_of_lt q2, checkedMul_of_lt q3, checkedMul_of_lt q4, checkedMul_of_lt hL, Option.bind_some]
-    rw [hcm]
-    simp only [ne_eq, not_true_eq_false, ↓reduceIte, getS_bind]
-    have hb : ¬ r.data.length < x.rows * x.colsIn * x.n * x.colsOut * x.size * 8 := by omega
-    rw [if_neg hb, readExactInto_bind]
-    simp only [modifyS_apply]
-    have hl : (List.take (x.rows * x.colsIn * x.n * x.colsOut * x.size * 8) x.data).length = x.rows * x.colsIn * x.n * x.colsOut * x.size * 8 := by
-      simp; omega
-    have hg : ¬ (x.rows * x.colsIn * x.n * x.colsOut * x.size * 8 > r.data.length) := by omega
-    have hlt : ¬ ((List.take (x.rows * x.colsIn * x.n * x.colsOut * x.size * 8) x.data ++ tail).length < x.rows * x.colsIn * x.n * x.colsOut * x.size * 8) := by
-      simp; omega
-    simp only [hg, hlt, ↓reduceIte, List.take_left' hl, List.drop_left' hl]
+          x.data.take (x.rows * x.colsIn * x.n * x.colsOut * x.size * 8) ++ r.data.drop (x.rows * x.colsIn * x.n * x.colsOut * x.size * 8)⟩ tail :=
+  mat_rt x r p tail hw hi hcap
 example : MatWF ⟨2, 1, 2, 1, 1, List.replicate 32 3⟩ ∧ MatZnx.Inv ⟨2, 1, 2, 1, 1, List.replicate 32 3⟩ := by
   unfold MatWF MatZnx.Inv; decide
 
@@ -414,5 +322,34 @@ theorem wrapper_err_layout_unchanged_partial (ty : String) (hty : ty ∈ singleL
   exact t s bs k s' he
 example : rGLWE origin ⟨[12], [], [.vec ⟨1, 1, 1, 1, List.replicate 8 0⟩], 0⟩ (leBytes 4 17) = .err "eof" ⟨[17], [], [.vec ⟨1, 1, 1, 1, List.replicate 8 0⟩], 0⟩ := by
   decide +kernel
+
+/-! ### round trip of the 24 single-layout types, one statement over the reader / writer tables
+
+`RoundTrips ws sk lk pub r w` (Lemmas/BytesRT): for every profile, every source `x` whose wrapper fields fit their wire
+widths `ws` (a canonical `Distribution` for `pub`), whose seeds have the shape `sk` and whose HAL layout is well formed
+and consistent, and every receiver `s` of the same shape whose buffer has the capacity: `w p x = ok bs` and
+`r s (bs ++ tail) = ok () ⟨x.fields, x's seeds, x's dimensions and active bytes over s's buffer, s.mem⟩ tail`. -/
+theorem wrapper_read_write (ty : String) (hty : ty ∈ singleLeaf) :
+    ∃ (r : Rd St Unit) (w : Profile → St → Outcome Bytes), readerOf ty = some r ∧ (∀ p, writerOf p ty = some (w p)) ∧
+      RoundTrips (hdrWidths ty) (seedKind ty) (leafKind ty) (isPub ty) r w := by
+  simp only [singleLeaf, List.mem_cons, List.mem_nil_iff, or_false] at hty
+  rcases hty with rfl | rfl | rfl | rfl | rfl | rfl | rfl | rfl | rfl | rfl | rfl | rfl | rfl | rfl | rfl | rfl | rfl | rfl | rfl | rfl |
+    rfl | rfl | rfl | rfl
+  all_goals first
+    | exact ⟨_, _, rfl, fun _ => rfl, rt_vec⟩ | exact ⟨_, _, rfl, fun _ => rfl, rt_scalar⟩ | exact ⟨_, _, rfl, fun _ => rfl, rt_mat⟩
+    | exact ⟨_, _, rfl, fun _ => rfl, rt_glwe⟩ | exact ⟨_, _, rfl, fun _ => rfl, rt_gglwe⟩
+    | exact ⟨_, _, rfl, fun _ => rfl, rt_switching⟩ | exact ⟨_, _, rfl, fun _ => rfl, rt_autokey⟩
+    | exact ⟨_, _, rfl, fun _ => rfl, rt_pubkey⟩ | exact ⟨_, _, rfl, fun _ => rfl, rt_glwe_c⟩
+    | exact ⟨_, _, rfl, fun _ => rfl, rt_gglwe_c⟩ | exact ⟨_, _, rfl, fun _ => rfl, rt_switching_c⟩
+    | exact ⟨_, _, rfl, fun _ => rfl, rt_autokey_c⟩
+/-- non-vacuity: a GLWE automorphism key with `p = −5` (as u64), fields in range, 1×1×1×1×1 matrix of 8 bytes -/
+example : FieldsFit (hdrWidths "glwe_automorphism_key") [2 ^ 64 - 5, 12, 1] ∧
+    LeafOK (leafKind "glwe_automorphism_key") ⟨[2 ^ 64 - 5, 12, 1], [], [.mat ⟨1, 1, 1, 1, 1, List.replicate 8 7⟩], 0⟩
+      ⟨[0, 0, 0], [], [.mat ⟨1, 1, 1, 1, 1, List.replicate 8 0⟩], 0⟩ := by
+  refine ⟨⟨rfl, ?_⟩, ⟨_, _, rfl, rfl, ?_⟩⟩
+  · intro i hi _
+    have : i = 0 ∨ i = 1 ∨ i = 2 := by simp [hdrWidths] at hi; omega
+    rcases this with rfl | rfl | rfl <;> decide
+  · unfold MatRT MatWF MatZnx.Inv; decide
 
 end C18
